@@ -146,7 +146,9 @@ func runC20(c *eng.Ctx, tier string) {
 		sig  string
 		loop eng.RangeLoop
 	}
-	findJoin := func(f *ssa.Function) *joinSite {
+	depthJoin := 0
+	var findJoin func(f *ssa.Function) *joinSite
+	findJoin = func(f *ssa.Function) *joinSite {
 		var js *joinSite
 		eng.Instrs(f, func(in ssa.Instruction) {
 			call, ok := in.(*ssa.Call)
@@ -190,6 +192,34 @@ func runC20(c *eng.Ctx, tier string) {
 				js = &joinSite{call: call, sig: cal.Pkg.Pkg.Path() + "." + cal.Name() + "(" + strings.Join(parts, ", ") + ")"}
 			}
 		})
+		if js == nil && depthJoin < 1 {
+			// the join may be in a small helper of Fields both callers share
+			eng.Instrs(f, func(in ssa.Instruction) {
+				call, ok := in.(*ssa.Call)
+				if !ok || js != nil {
+					return
+				}
+				h := eng.Callee(&call.Call)
+				if !eng.IsHelper(f, h) || len(call.Call.Args) == 0 || len(f.Params) == 0 || eng.Origin(call.Call.Args[0]) != ssa.Value(f.Params[0]) || !isStringType(call.Type()) {
+					return
+				}
+				depthJoin++
+				inner := findJoin(h)
+				depthJoin--
+				if inner != nil && inner.call != nil {
+					// the helper returns the join itself
+					okRet := true
+					for _, r := range eng.Returns(h) {
+						if eng.Origin(eng.RetVals(r)[0]) != ssa.Value(inner.call) {
+							okRet = false
+						}
+					}
+					if okRet {
+						js = &joinSite{call: call, sig: inner.sig}
+					}
+				}
+			})
+		}
 		if js == nil {
 			// string concatenation
 			eng.Instrs(f, func(in ssa.Instruction) {
@@ -652,7 +682,8 @@ func c20Types(c *eng.Ctx, parse, apply *ssa.Function) {
 			cv, isConv := mi.X.(*ssa.Convert)
 			c.Check(isConv && isSecretBytesCall(cv.X), "R-C20-6", apply, vo.Pos(), "string field value "+eng.ValStr(mi.X), "string(secret bytes): the text of the secret, unaltered", "")
 		case "secretType":
-			call, idx := eng.TupleCall(mi.X)
+			// (the handle may have been handed to a helper holding the assignment switch)
+			call, idx := eng.TupleCall(eng.OriginX(mi.X))
 			okk := call != nil && idx == 0 && eng.IsNamed(mi.X.Type(), setecPkg, "Secret")
 			c.Check(okk, "R-C20-6", apply, vo.Pos(), "Secret field value "+eng.ValStr(mi.X), "the live handle obtained from the store", "")
 		case "bytesType":
